@@ -81,7 +81,7 @@ for n in range(0, 7):
 # record-count slices: arbitrary bytes restricted (by assumption over the reference decode) to inputs with
 # <= K complete records, the K-th ending the input; decoder loop bound = K.  One loop iteration of
 # ldb_edit_import costs 30-100 s of solver time whatever N is, hence the sparse quick set.
-EDIT_QUICK_1REC = (4, 11, 22)   # smallest records / compact pointer can be accepted / new file can be accepted
+EDIT_QUICK_1REC = (4, 11)   # smallest records / a compact pointer can be accepted (new file, 22 bytes: thorough)
 for k, ns in ((1, range(2, 33)), (2, range(4, 13))):
     for n in ns:
         quick = (k == 1 and n in EDIT_QUICK_1REC)
@@ -173,10 +173,12 @@ def block_obl(n, ops, ikc=0, t=2, tier="quick", timeout=300):
     nm = "-".join(OPNAME[o] for o in ops if o) or "init"
     emin = 11 if ikc else 3                      # smallest entry that can be valid
     need = 1 + sum(1 for o in ops[1:] if o == 4) + (1 if 5 in ops else 0)
+    seeks = (3 in ops or 6 in ops)
     slab = max(4, 2 * max(0, n - 8) + 2)   # key buffer <= data region D = N-8; buffer.c grows by x1.5
     defs = {"VP_SLAB": slab, "VP_N": n, "VP_T": t, "VP_OP1": ops[0], "VP_OP2": ops[1], "VP_OP3": ops[2], "VP_IKC": ikc}
     seek_corrupt = ikc and t < 8 and (3 in ops or 6 in ops)
-    if n >= 8 + emin * need and not seek_corrupt:
+    # a seek can only end valid on a key >= target: bytewise needs a non-empty key against a non-empty target
+    if n >= 8 + emin * need + (1 if (seeks and not ikc and t > 0) else 0) and not seek_corrupt:
         defs["VP_WIT_VALID"] = None
     if n >= 9 or (seek_corrupt and n >= 8):
         defs["VP_WIT_CORRUPT"] = None
@@ -200,14 +202,16 @@ def block_obl(n, ops, ikc=0, t=2, tier="quick", timeout=300):
 ALL_OPS = ((1,), (2,), (3,), (1, 4), (2, 5), (3, 4), (3, 5), (3, 6))
 for n in (0, 3, 4, 7):
     block_obl(n, (0,))
+BLOCK_QUICK_OPS = ((1,), (2,), (3,), (1, 4), (2, 5))
 for ops in ALL_OPS:
-    block_obl(12, ops)
-for ops in ((1,), (3,)):
-    block_obl(11, ops)
+    if ops in BLOCK_QUICK_OPS:
+        block_obl(12, ops)
+    else:
+        block_obl(12, ops, tier="thorough", timeout=3600)
+block_obl(11, (1,))
 block_obl(12, (3,), ikc=1, t=7, tier="thorough", timeout=3600)
 for ops in ALL_OPS[1:]:
-    if ops != (3,):
-        block_obl(11, ops, tier="thorough", timeout=3600)
+    block_obl(11, ops, tier="thorough", timeout=3600)
 # thorough: more sizes (16 = two restart points / up to 2 entries, 20 = two distinct restart regions), 3-op sequences,
 # internal-key comparator with entries that can be valid (>= 11 bytes each)
 for n in (8, 9, 10, 13, 14, 15, 16):
@@ -247,8 +251,10 @@ for (n, out, tier, timeout) in [(n, 8, "quick", 300) for n in range(0, 9)] + \
     add("g.snappy-decode-N%d-O%d" % (n, out), "C18/snappy.c", real=["util/snappy.c"],
         defs={"VP_N": n, "VP_OUT": out}, unwind=out + 2,
         # every element consumes >= 1 input byte; copies/literals are <= remaining output
-        unwindset={"decode_blocks.0": n + 1, "vp_ref_snappy.0": n + 1, "vp_ref_snappy.1": 5, "vp_fill.0": max(n, 1) + 1,
-                   "ldb_varint32_read.0": 6, "vp_ref_varint.0": 6},
+        # (loop numbers from goto-instrument --show-loops: .0 of decode_blocks is the inner overlap-copy loop)
+        unwindset={"decode_blocks.1": n + 1, "decode_blocks.0": out + 1, "vp_ref_snappy.3": n + 1, "vp_ref_snappy.0": 5,
+                   "vp_ref_snappy.1": out + 1, "vp_ref_snappy.2": out + 1, "harness.0": out + 1, "memcpy.0": out + 1,
+                   "vp_fill.0": max(n, 1) + 1, "ldb_varint32_read.0": 6, "vp_ref_varint.0": 6},
         tier=tier, timeout=timeout,
         functions=["snappy_decode_size", "snappy_decode", "decode_blocks"],
         desc="snappy_decode_size + snappy_decode into a buffer of exactly the announced length: safe (no write past it, no read outside input), terminates, accepts iff the reference snappy decoder accepts, output == reference",
@@ -260,8 +266,9 @@ def log_obl(n, calls, tier, timeout):
     pr = n // 7 + 1                              # physical records per call, + 1 for the EOF/BAD step
     add("h.log-read-C%d-N%d" % (calls, n), "C18/logreader.c", real=["log_reader.c", "util/buffer.c", "util/slice.c"],
         kit=SLAB_KIT + ["vp_cksum.c"], defs={"VP_N": n, "VP_SLAB": slab, "VP_CALLS": calls}, unwind=n + 2,
-        unwindset={"read_physical_record.0": 3, "ldb_reader_read_record.0": pr + 1, "vp_ref_read.0": n // 7 + 4,
-                   "harness.0": calls + 1, "ldb_realloc.0": slab + 1, "ldb_crc32c_extend.0": max(1, n - 6) + 1,
+        unwindset={"read_physical_record.0": 3, "ldb_reader_read_record.0": pr + 1, "vp_ref_read.0": max(n - 6, n // 7 + 4) + 1,
+                   "vp_ref_read.1": max(n - 6, n // 7 + 4) + 1, "vp_ref_read.2": max(n - 6, n // 7 + 4) + 1,
+                   "harness.0": max(calls, n - 6) + 1, "harness.1": max(calls, n - 6) + 1, "ldb_realloc.0": slab + 1, "ldb_crc32c_extend.0": max(1, n - 6) + 1,
                    "vp_cksum_extend.0": max(1, n - 6) + 1, "sprintf.0": 31, "vp_ref_le32.0": 5,
                    "memcpy.0": max(1, n - 7) + 1},
         restrict_fp=["report_drop.function_pointer_call.1/vp_reporter"],
